@@ -392,8 +392,10 @@ fn emit_ancestor_descendant_borrow_error(
     while let Some(node_id) = nodes_to_visit.pop_front() {
         let mut incoming_edges = call_graph.edges_directed(node_id, Direction::Incoming);
         if incoming_edges.clone().any(|edge_ref| {
-            edge_ref.weight() == &CallGraphEdgeMetadata::SharedBorrow
-                && edge_ref.source().id() == contended_node_id
+            matches!(
+                edge_ref.weight(),
+                CallGraphEdgeMetadata::SharedBorrow | CallGraphEdgeMetadata::ExclusiveBorrow
+            ) && edge_ref.source().id() == contended_node_id
         }) {
             downstream_borrow_node_id = Some(node_id);
             break;
@@ -517,8 +519,10 @@ fn emit_tried_to_borrow_mut_while_borrowed_immutably(
     while let Some(node_id) = nodes_to_visit.pop_front() {
         let mut incoming_edges = call_graph.edges_directed(node_id, Direction::Incoming);
         if incoming_edges.clone().any(|edge_ref| {
-            edge_ref.weight() == &CallGraphEdgeMetadata::SharedBorrow
-                && edge_ref.source().id() == contended_node_id
+            matches!(
+                edge_ref.weight(),
+                CallGraphEdgeMetadata::SharedBorrow | CallGraphEdgeMetadata::ExclusiveBorrow
+            ) && edge_ref.source().id() == contended_node_id
         }) {
             borrower_node_id = Some(node_id);
             break;
